@@ -100,6 +100,9 @@ def gen_model(rng, idx):
   for j in range(int(rng.integers(1, 3))):
     x = qkeras.QDense(int(rng.integers(1, 5)), use_bias=bool(rng.integers(0, 2)), kernel_quantizer=pickw(rng),
                       bias_quantizer=pick(rng, WQ[:6] + [None]), activation=pick(rng, AQ), name=f"d{idx}_{j}")(x)
+    if (idx // 3 + j) % 3 == 1:
+      # non-trainable state between quantized layers (moving statistics): a round trip must carry it as well
+      x = L.BatchNormalization(name=f"bn{idx}_{j}")(x)
     if rng.integers(0, 3) == 0:
       x = qkeras.QActivation(act_arg(rng), name=f"ad{idx}_{j}")(x)
     if rng.integers(0, 4) == 0:
@@ -133,7 +136,7 @@ def main():
   env.install_learning_phase()
   env.set_phase(0)
   rep.cov["rule"] = ("random quantized models (QDense, QConv1D incl. causal, QConv2D, QDepthwiseConv2D, QSeparableConv2D, QActivation, "
-                     "QAveragePooling2D, QGlobalAveragePooling2D, QSeparableConv1D, QMobileNetSeparableConv2D, depth multipliers, QAdaptiveActivation, QActivation built from quantizer objects) with weight / activation quantizers drawn from 15 + 13 option strings "
+                     "QAveragePooling2D, QGlobalAveragePooling2D, QSeparableConv1D, QMobileNetSeparableConv2D, depth multipliers, QAdaptiveActivation, QActivation built from quantizer objects, BatchNormalization between quantized layers, frozen layers in rotation none / one / all) with weight / activation quantizers drawn from 15 + 13 option strings "
                      "(incl. auto scales, po2, binary/ternary, quantized_linear, quantized_hswish) x random weights/inputs x three routes: "
                      "JSON rebuild + set_weights, clone_model, HDF5 save + load_qmodel (no user custom objects). Outputs compared bitwise, "
                      "get_quantizers() strings compared. distinct = distinct model JSON")
@@ -147,8 +150,16 @@ def main():
     except Exception as e:  # pylint: disable=broad-except
       rep.violation(f"build-{i}", f"model construction raised {type(e).__name__}: {str(e)[:300]}", {})
       continue
-    ws = [rng.normal(0, 0.7, size=w.shape).astype(np.float32) for w in m.get_weights()]
+    ws = [rng.normal(0, 0.7, size=w.shape).astype(np.float32) if "variance" not in getattr(v, "path", getattr(v, "name", ""))
+          else rng.uniform(0.3, 2.0, size=w.shape).astype(np.float32) for v, w in zip(m.weights, m.get_weights())]
     m.set_weights(ws)
+    # frozen layers, in rotation: none / one weight-bearing layer / all of them (their variables are non-trainable)
+    wl_ = [l for l in m.layers if l.get_weights()]
+    if i % 4 == 1 and wl_:
+      wl_[(i // 4) % len(wl_)].trainable = False
+    elif i % 4 == 3:
+      for l_ in wl_:
+        l_.trainable = False
     x = tf.constant(rng.normal(0, 1, size=(3,) + tuple(m.input_shape[1:])).astype(np.float32))
     y = m(x).numpy()
     qs = quantizer_strings(m)
